@@ -121,6 +121,7 @@ COMBINATORS = [
     (r"^std::option::Option::<T>::is_some_and$", "opt_is_some_and"),
     (r"^std::option::Option::<T>::map_or$", "opt_map_or"),
     (r"^std::option::Option::<T>::unwrap_or$", "opt_unwrap_or"),
+    (r"^std::option::Option::<T>::filter$", "opt_filter"),
     (r"^std::option::Option::<T>::map_or_else$", "opt_map_or_else"),
     (r"^std::result::Result::<T, E>::map$", "res_map"),
     (r"^std::result::Result::<T, E>::map_err$", "res_map_err"),
@@ -729,6 +730,17 @@ class Normaliser:
             elif kind == "opt_unwrap_or_else":
                 b_some = sp.new_block([sp.assign(dest, sp.use(MV(some_v)), span)], sp.goto(cont), span)
                 b_none = call(0, [], dest, cont)
+            elif kind == "opt_filter":
+                # Some(x) if pred(&x) => Some(x), otherwise None
+                keep = sp.new_local("bool", None)
+                pref = sp.new_local("&" + pty, None)
+                NONE = {"k": "aggregate", "adt": OPT, "variant": "None", "fields": [], "ops": []}
+                b_keep = sp.new_block([sp.assign(dest, agg(OPT, "Some", MV(P(pay))), span)], sp.goto(cont), span)
+                b_drop = sp.new_block([sp.assign(dest, NONE, span)], sp.goto(cont), span)
+                b_test = sp.new_block([], {"k": "switch", "discr": MV(P(keep)), "discr_ty": "bool", "targets": [[0, b_drop]], "otherwise": b_keep}, span)
+                e = call(0, [MV(P(pref))], P(keep), b_test)
+                b_some = sp.new_block([sp.assign(P(pay), sp.use(MV(some_v)), span), sp.assign(P(pref), {"k": "ref", "mut": False, "place": P(pay)}, span)], sp.goto(e), span)
+                b_none = sp.new_block([sp.assign(dest, dict(NONE), span)], sp.goto(cont), span)
             elif kind == "opt_unwrap_or":
                 b_some = sp.new_block([sp.assign(dest, sp.use(MV(some_v)), span)], sp.goto(cont), span)
                 b_none = sp.new_block([sp.assign(dest, sp.use(default_op), span)], sp.goto(cont), span)
